@@ -8,13 +8,22 @@ GEN = ['Limits']
 ASSUMPTIONS = ['malloc never fails (insert_entry returning NULL is not driven)',
                'entry identity is carried in the pathname; archive_entry setters/getters behave (C14)']
 TRUSTED = ['model keeps live records in insertion order; the hash-bucket order is taken from the implementation '
-           'as the choice index of drainAt/partialAt (theorems are quantified over every choice)']
+           'as the choice index of drainAt/partialAt (theorems are quantified over every choice)',
+           'bucket layer (Lemmas/LnkHash.lean: buckets[], hash & (number_buckets - 1), head insertion, grow_hash) is a '
+           'hand-written model; its tie to the C is the extracted source shape (Gen/Limits: initial size, the three '
+           'index computations, growth test, grow-before-index order; theorem bucket_source_shape) plus the lnk '
+           'engine driving >4000 live groups; chain unlinking in next_entry/find_entry is covered by the flat model only']
 MANIFEST = {
     'text': 'Lean theorems over a model of archive_entry_link_resolver.c: for every strategy and every history of '
             'linkify / drain / partial_links calls (any record choice at each drain, hence any hash layout and any '
             'number of table growths) followed by draining to NULL, the multiset of entry identities out equals the '
             'multiset in (exactly_once); entries differ from their input only in hardlink/size (unmodified_except_link); '
-            'group structure for tar/mtree/new-cpio; pass-through cases.  The model is tied to the C by a differential '
+            'group structure for tar/mtree/new-cpio; pass-through cases.  Bucket layer under the flat table '
+            '(buckets[hash & (number_buckets-1)], head insertion, grow_hash; any hash function): after any insertion '
+            'history with any number of growths the table holds every record exactly once (buckets_no_loss_no_dup), '
+            'every record is reached by the find_entry chain walk for its own key (buckets_find_every_record) and the '
+            'walk equals the flat lookup (buckets_find_eq_lookup); placement invariant preserved by insert and grow.  '
+            'The model is tied to the C by a differential '
             'engine that drives the real resolver (ASan/UBSan/LSan) and the model on the same op streams, incl. >4000 '
             'live groups to cross grow_hash twice.',
     'note': 'Trusted: Lean kernel; correspondence harness; hash-bucket order is not modelled (taken from the '
